@@ -14,14 +14,21 @@ import pfimport  # noqa: F401
 from pfimport import exc_enum
 from pipefunc.resources import Resources
 
+import c20_heap
+import c20_pipe
+
 PID = "C20"
-PROPS = ["PfModel.Props.C20", "PfModel.Props.C20Src"]
-GENERATED = True          # Props/C20Src.lean is proved against lean/PfModel/Generated/C20Facts.lean, regenerated from /repo on every run
+PROPS = ["PfModel.Props.C20", "PfModel.Props.C20Src", "PfModel.Props.C20Heap", "PfModel.Props.C20HeapSrc", "PfModel.Props.C20Slurm", "PfModel.Props.C20Pipe"]
+GENERATED = True          # Props/C20Src.lean and Props/C20HeapSrc.lean are proved against lean/PfModel/Generated/C20*Facts.lean, regenerated from /repo on every run
 DRIVER = "C20"
 RULE = ("operations drawn from one seeded PRNG over Resources built from small integers (incl. 0 and negatives), memory strings "
         "across B..PB with fractions and malformed variants, wall-time strings across MM:SS / H:MM:SS / HH:MM:SS / D:HH:MM:SS with "
         "varying digit counts and malformed variants, partitions and integer extra_args; a case is non-trivial when at least one "
-        "operand sets a quantity the operation reads; distinct by the operation's JSON")
+        "operand sets a quantity the operation reads; distinct by the operation's JSON. Heap cases (harness/c20_heap.py): 1-3 dict "
+        "objects (30% empty), 1-4 instances holding them BY REFERENCE (shared whenever indices collide), one combinator call on "
+        "indices (repeats allowed), then one in-place write into the result's or an operand's dict; observed by `is` and by content. "
+        "Pipeline cases (harness/c20_pipe.py): NestedPipeFunc over a chain of 2-4 PipeFuncs and Pipeline(default_resources=...) over 1-3 "
+        "functions, resources given as None / instance / dict / callable (returning an instance or a dict)")
 ASSUMPTIONS = ["memory sizes are exact rationals in the model and floats in the code: operand pairs closer than 1e-9 relative (but not "
                "identical strings) are skipped and counted", "ASCII strings only", "extra_args values are integers"]
 
@@ -138,10 +145,59 @@ def near_tie(ops):
     return False
 
 
+def combine_clauses(before, r):
+    """combine_max returns a specification at least as large as every operand in each quantity"""
+    bad = []
+    for o in before:
+        if o["cpus"] is not None and not (r["cpus"] is not None and r["cpus"] >= o["cpus"]):
+            bad.append(f"combine_max cpus {r['cpus']} < operand {o['cpus']}")
+        if o["gpus"] is not None and not (r["gpus"] is not None and r["gpus"] >= o["gpus"]):
+            bad.append(f"combine_max gpus {r['gpus']} < operand {o['gpus']}")
+        if o["memory"] is not None and not (r["memory"] is not None and mem(r["memory"]) is not None
+                                           and mem(r["memory"]) >= mem(o["memory"]) * (1 - Fraction(1, 10**9))):
+            bad.append(f"combine_max memory {r['memory']} smaller than operand {o['memory']}")
+        if o["time"] is not None and not (r["time"] is not None and dur(r["time"]) is not None and dur(r["time"]) >= dur(o["time"])):
+            bad.append(f"combine_max time {r['time']} shorter than operand {o['time']}")
+    return bad
+
+
+def defaults_clauses(sv, dv, r):
+    """with_defaults keeps every quantity set on the receiver and fills only unset ones"""
+    bad = []
+    for f in FIELDS:
+        want = sv[f] if sv[f] is not None else (dv[f] if dv else None)
+        if r[f] != want:
+            bad.append(f"with_defaults {f}: {r[f]!r} instead of {want!r}")
+    return bad
+
+
+def heap_value_clauses(a, o):
+    """the value clauses of the property on a heap case (the identity clauses are evaluated in c20_heap.run_heap)"""
+    op, res = a["op"], o.get("res")
+    if not isinstance(res, dict) or "new" not in res:
+        if op["k"] == "combine_max" and isinstance(res, dict) and "err" in res:
+            return ["combine_max raised on valid operands"]
+        return []
+    r, views = res["new"], [x["view"] for x in o["objs"]]
+    if op["k"] == "combine_max":
+        return combine_clauses([views[i] for i in op["l"]], r)
+    if op["k"] == "with_defaults" or (op["k"] == "maybe_with_defaults" and op.get("r") is not None and op.get("default") is not None):
+        return defaults_clauses(views[op["self"] if op["k"] == "with_defaults" else op["r"]], views[op["default"]], r)
+    if op["k"] == "dict_roundtrip" and r != views[op["self"]]:
+        return ["from_dict(r.dict()) != r"]
+    return []
+
+
 # ------------------------------------------------------------------------------------------------ one case
 def make_case(rng):
-    kind = rng.choices(["make", "combine_max", "with_defaults", "update", "dict_roundtrip", "slurm", "mem", "time"],
-                       [3, 5, 3, 3, 1, 2, 2, 2])[0]
+    kind = rng.choices(["make", "combine_max", "with_defaults", "update", "dict_roundtrip", "slurm", "mem", "time", "heap", "nested", "pipeline_add"],
+                       [3, 5, 3, 3, 1, 2, 2, 2, 9, 1, 1])[0]
+    if kind == "nested":
+        return c20_pipe.gen_nested_case(rng, gen_valid, to_json, gen_kwargs)
+    if kind == "pipeline_add":
+        return c20_pipe.gen_pipeline_case(rng, gen_valid, to_json)
+    if kind == "heap":
+        return c20_heap.gen_heap_case(rng, gen_valid, to_json, gen_memory, gen_time)
     if kind == "make":
         return {"m": "make", "a": to_json(gen_kwargs(rng, 0.7))}
     if kind == "mem":
@@ -190,6 +246,13 @@ def run_impl(case):
     """Returns (observation comparable with the model, list of property clauses that fail on the implementation)."""
     m, a = case["m"], case["a"]
     bad = []
+    if m == "heap":
+        o, bad = c20_heap.run_heap(a, from_json)
+        return o, bad + heap_value_clauses(a, o)
+    if m == "nested":
+        return c20_pipe.run_nested(a, from_json, obs, combine_clauses)
+    if m == "pipeline_add":
+        return c20_pipe.run_pipeline(a, from_json, obs, defaults_clauses)
     if m == "make":
         res = attempt(lambda: Resources(**from_json(a)))
         if "ok" in res:
@@ -224,17 +287,7 @@ def run_impl(case):
         if [obs(o) for o in ops] != before:
             bad.append("combine_max changed an operand")
         if "ok" in res:
-            r = res["ok"]
-            for o in before:
-                if o["cpus"] is not None and not (r["cpus"] is not None and r["cpus"] >= o["cpus"]):
-                    bad.append(f"combine_max cpus {r['cpus']} < operand {o['cpus']}")
-                if o["gpus"] is not None and not (r["gpus"] is not None and r["gpus"] >= o["gpus"]):
-                    bad.append(f"combine_max gpus {r['gpus']} < operand {o['gpus']}")
-                if o["memory"] is not None and not (r["memory"] is not None and mem(r["memory"]) is not None
-                                                   and mem(r["memory"]) >= mem(o["memory"]) * (1 - Fraction(1, 10**9))):
-                    bad.append(f"combine_max memory {r['memory']} smaller than operand {o['memory']}")
-                if o["time"] is not None and not (r["time"] is not None and dur(r["time"]) is not None and dur(r["time"]) >= dur(o["time"])):
-                    bad.append(f"combine_max time {r['time']} shorter than operand {o['time']}")
+            bad += combine_clauses(before, res["ok"])
         else:
             bad.append("combine_max raised on valid operands")
         return (res["ok"] if "ok" in res else res), bad
@@ -246,11 +299,7 @@ def run_impl(case):
         if (obs(s), obs(d) if d else None) != before:
             bad.append("with_defaults changed an operand")
         if "ok" in res:
-            for f in FIELDS:
-                sv, dv = before[0][f], (before[1][f] if d else None)
-                want = sv if sv is not None else dv
-                if res["ok"][f] != want:
-                    bad.append(f"with_defaults {f}: {res['ok'][f]!r} instead of {want!r}")
+            bad += defaults_clauses(before[0], before[1] if d else None, res["ok"])
         return res, bad
     if m == "update":
         s = Resources(**from_json(a["self"]))
@@ -281,6 +330,12 @@ def run_impl(case):
 
 def nontrivial(case):
     m, a = case["m"], case["a"]
+    if m == "heap":
+        return c20_heap.nontrivial(a)
+    if m == "nested":
+        return any(c is not None for c in a["children"])
+    if m == "pipeline_add":
+        return a.get("default") is not None and any(f["res"] is not None for f in a["funcs"])
     if m == "combine_max":
         return any(any(x.get(f) is not None for f in ("cpus", "gpus", "memory", "time")) for x in a)
     if m in ("mem", "time"):
@@ -303,6 +358,36 @@ CORPUS = [
     {"m": "update", "a": {"self": {"cpus": 1, "extra_args": [["x", 1]]}, "kw": [["x", 2], ["extra_args", [["w", 1]]]]}},
     {"m": "slurm", "a": {"gpus": 0, "cpus": 2}},                                                   # DF-21 reading
     {"m": "with_defaults", "a": {"self": {"cpus": 2}, "default": {"nodes": 1, "cpus_per_node": 2}}},
+    # heap cases: two operands sharing one dict object, a new key arriving late (the shape of seeded change C20-s2-A)
+    {"m": "heap", "a": {"dicts": [[["x", 1]], [["y", 2], ["x", 5]]],
+                        "recs": [{"f": {"cpus": 1}, "ex": 0}, {"f": {"gpus": 2, "time": "10:00"}, "ex": 0}, {"f": {"cpus": 3}, "ex": 1}],
+                        "op": {"k": "combine_max", "l": [0, 1, 2]}, "mut": {"on": "result", "k": "m", "v": 9}}},
+    {"m": "heap", "a": {"dicts": [[], [["late", 1]]], "recs": [{"f": {"cpus": 1}, "ex": 0}, {"f": {"cpus": 2}, "ex": 1}],
+                        "op": {"k": "combine_max", "l": [0, 1]}, "mut": {"on": "dict", "ref": 1, "k": "m", "v": 9}}},
+    {"m": "heap", "a": {"dicts": [[["x", 1]]], "recs": [{"f": {"cpus": 1}, "ex": 0}],
+                        "op": {"k": "update", "self": 0, "kw": [["extra_args", {"ref": 0}], ["z", 7], ["cpus", 2]]},
+                        "mut": {"on": "dict", "ref": 0, "k": "m", "v": 9}}},
+    {"m": "heap", "a": {"dicts": [[["x", 1]]], "recs": [{"f": {"cpus": 1}, "ex": 0}, {"f": {"gpus": 1}, "ex": 0}],
+                        "op": {"k": "with_defaults", "self": 0, "default": 1}, "mut": {"on": "result", "k": "x", "v": 9}}},
+    {"m": "heap", "a": {"dicts": [[["x", 1]]], "recs": [{"f": {"cpus": 1}, "ex": 0}],
+                        "op": {"k": "with_defaults", "self": 0, "default": None}, "mut": {"on": "result", "k": "m", "v": 9}}},
+    {"m": "heap", "a": {"dicts": [[["x", 1]]], "recs": [{"f": {"cpus": 1}, "ex": 0}],
+                        "op": {"k": "from_dict", "f": {"cpus": 2}, "ex": 0}, "mut": {"on": "result", "k": "m", "v": 9}}},
+    {"m": "heap", "a": {"dicts": [[["x", 1]]], "recs": [{"f": {"cpus": 1}, "ex": 0}],
+                        "op": {"k": "dict", "self": 0}, "mut": {"on": "result", "k": "m", "v": 9}}},
+    {"m": "heap", "a": {"dicts": [[["x", 1]]], "recs": [{"f": {"cpus": 1}, "ex": 0}],
+                        "op": {"k": "dict_roundtrip", "self": 0}, "mut": {"on": "dict", "ref": 0, "k": "x", "v": 9}}},
+    # resources of nested functions and pipeline defaults
+    {"m": "nested", "a": {"given": None, "children": [{"inst": {"cpus": 1, "time": "10:00:00"}}, None, {"dict": {"cpus": 4, "time": "2:00:00"}}]}},
+    {"m": "nested", "a": {"given": None, "children": [{"inst": {"cpus": 1}}, {"callable": {"cpus": 2}, "as": "inst"}]}},
+    {"m": "nested", "a": {"given": {"callable": {"cpus": 2}, "as": "inst"}, "children": [{"inst": {"cpus": 1}}, None]}},
+    {"m": "nested", "a": {"given": None, "children": [{"inst": {"nodes": 1, "cpus_per_node": 2}}, None]}},
+    {"m": "nested", "a": {"given": None, "children": [None, None]}},
+    {"m": "pipeline_add", "a": {"default": {"dict": {"cpus": 8, "memory": "1GB"}},
+                                "funcs": [{"plain": False, "res": {"callable": {"cpus": 2}, "as": "dict"}}, {"plain": True, "res": None},
+                                          {"plain": False, "res": {"inst": {"gpus": 1}}}, {"plain": False, "res": {"callable": {"nodes": 2}, "as": "inst"}}]}},
+    {"m": "pipeline_add", "a": {"default": {"inst": {"cpus": 8}}, "funcs": [{"plain": False, "res": {"inst": {"nodes": 1}}}]}},
+    {"m": "pipeline_add", "a": {"default": None, "funcs": [{"plain": False, "res": {"dict": {"cpus": 2}}}, {"plain": False, "res": None}]}},
 ]
 
 
@@ -310,6 +395,12 @@ def check_cases(ctx, cases):
     reqs, impls = [], []
     for case in cases:
         if case["m"] == "combine_max" and near_tie(case["a"]):
+            ctx.skip("mem-near-tie")
+            continue
+        if case["m"] == "nested" and near_tie(c20_pipe.operands_of(case)):
+            ctx.skip("mem-near-tie")
+            continue
+        if case["m"] == "heap" and near_tie(c20_heap.operands_of(case["a"])):
             ctx.skip("mem-near-tie")
             continue
         if not all(ord(ch) < 128 for ch in str(case)):
@@ -325,6 +416,10 @@ def check_cases(ctx, cases):
     for (case, o, bad), resp in zip(impls, outs):
         model = resp.get("r")
         ctx.count(f"op:{case['m']}")
+        if case["m"] == "heap":
+            c20_heap.counters(ctx, case["a"], o)
+        if case["m"] in ("nested", "pipeline_add"):
+            c20_pipe.counters(ctx, case, o)
         if isinstance(o, dict) and "err" in o:
             ctx.count(f"err:{case['m']}")
         ctx.record(case, nontrivial(case))
@@ -346,6 +441,15 @@ def pre_build(ctx):
         c20_extract.OUT.write_text("/- GENERATED stub: harness/c20_extract.py could not translate pipefunc/resources.py -/\n"
                                    "namespace PF.Generated.C20\ndef units : List (String × Int) := []\ndef memoryRegex : String := \"\"\n"
                                    "def wallTimeRegex : String := \"\"\nend PF.Generated.C20\n")
+
+
+    import c20_heap_extract
+    try:
+        events, frozen, factory = c20_heap_extract.write()
+        ctx.extra["translated_dict_object_events"] = {**events, "frozen_dataclass": frozen, "extra_args_default_factory_dict": factory}
+    except Exception as e:  # noqa: BLE001   a broken tie, as above
+        ctx.notes.append(f"heap-event translator failed: {type(e).__name__}: {e}")
+        c20_heap_extract.write_stub()
 
 
 def run(ctx):
